@@ -3,6 +3,7 @@ CONSTANTS
   ExtOrder <- TraceExtOrder
   Callers = {1, 2, 3}
   MaxAgents = 10
+  AsFound = {}
   SetCountBroadcasts = TRUE
   HWM = 1000000000
   Slack = 1500
